@@ -698,6 +698,93 @@ def rule_G11(ck):
                                  construct=f"deferred-unsafe use of {name} in {q.split('::')[1]}")
     if n < 5:
         ck.unknown(f"only {n} uses of possibly-deferred results found (nine confirmed by hand)")
+    _g11_addresses(ck)
+
+
+ADDRESS_PARAMS = {"addr", "old_addr", "start", "address"}
+
+
+def _g11_addresses(ck):
+    """The location counter and symbol values are deferreds until the image is laid out: state['emit_address'], state['rel_address'],
+    the address parameters of the compiler's methods and the values stored in the symbol table may only be combined with + - *
+    (LinearPolynomial arithmetic), stored, passed on, or forced with wait(); everything else (%, comparisons, shifts, truth
+    tests, formatting into bytes) needs the wait() first."""
+    repo = ck.repo
+    n = 0
+
+    def bad_use(node):
+        """node: an expression that IS a possibly-deferred address -> text of the unsupported use, or None"""
+        p = node._parent
+        if isinstance(p, ast.Call) and isinstance(p.func, ast.Name) and p.func.id == "wait":
+            return None
+        if isinstance(p, ast.BinOp):
+            if isinstance(p.op, ALLOWED_BINOPS):
+                return bad_use(p)          # still a (polynomial) deferred: look at what happens to the sum
+            return norm_text(p)
+        if isinstance(p, ast.UnaryOp):
+            return bad_use(p) if isinstance(p.op, (ast.USub, ast.UAdd)) else norm_text(p)
+        if isinstance(p, ast.Compare) and not all(isinstance(o, (ast.Is, ast.IsNot)) for o in p.ops):
+            return norm_text(p)
+        if isinstance(p, (ast.If, ast.While, ast.IfExp)) and p.test is node:
+            return "truth test of " + norm_text(node)
+        if isinstance(p, ast.BoolOp):
+            return norm_text(p)
+        if isinstance(p, ast.Call) and isinstance(p.func, ast.Name) and p.func.id in ("range", "int", "len", "oct", "hex", "bin", "abs", "divmod", "chr", "bytes"):
+            return norm_text(p)
+        if isinstance(p, ast.Subscript) and p.slice is node:
+            return norm_text(p)
+        return None
+    for q, fn in repo.all_functions():
+        mod = q.split("::")[0]
+        if mod not in ("compiler", "metacommands", "insns", "metacommand_impl", "types", "operators") or isinstance(fn, ast.Lambda) and False:
+            continue
+        # names that hold addresses in this function
+        names = set()
+        if mod == "compiler" and not isinstance(fn, ast.Lambda):
+            names |= {a.arg for a in fn.args.args if a.arg in ADDRESS_PARAMS}
+        if not isinstance(fn, ast.Lambda):
+            for loop in walk_local(fn):
+                # for name, (token, value) in self.symbols.items():
+                if isinstance(loop, ast.For) and "symbols" in norm_text(loop.iter) and ".items()" in norm_text(loop.iter) and isinstance(loop.target, ast.Tuple) and len(loop.target.elts) == 2 \
+                        and isinstance(loop.target.elts[1], ast.Tuple) and len(loop.target.elts[1].elts) == 2 and isinstance(loop.target.elts[1].elts[1], ast.Name):
+                    names.add(loop.target.elts[1].elts[1].id)
+        # a local that is assigned an address (or a sum / difference / multiple of addresses) is one too
+        def addr_expr(e):
+            if isinstance(e, ast.Name):
+                return e.id in names
+            if isinstance(e, ast.Subscript) and isinstance(e.slice, ast.Constant) and e.slice.value in ("emit_address", "rel_address") and norm_text(e.value).endswith("state"):
+                return True
+            if isinstance(e, ast.BinOp) and isinstance(e.op, ALLOWED_BINOPS):
+                return addr_expr(e.left) or addr_expr(e.right)
+            if isinstance(e, ast.UnaryOp) and isinstance(e.op, (ast.USub, ast.UAdd)):
+                return addr_expr(e.operand)
+            return False
+        if not isinstance(fn, ast.Lambda):
+            grew = True
+            while grew:
+                grew = False
+                for a_ in ast.walk(fn):
+                    if isinstance(a_, ast.Assign) and len(a_.targets) == 1 and isinstance(a_.targets[0], ast.Name) and a_.targets[0].id not in names and addr_expr(a_.value):
+                        # only if EVERY assignment to that name is an address (a name re-used for a waited value is not one)
+                        others = [b_ for b_ in ast.walk(fn) if isinstance(b_, ast.Assign) and any(isinstance(t_, ast.Name) and t_.id == a_.targets[0].id for t_ in b_.targets)]
+                        if all(addr_expr(b_.value) for b_ in others):
+                            names.add(a_.targets[0].id)
+                            grew = True
+        nodes = list(ast.walk(fn)) if not isinstance(fn, ast.Lambda) and names else (list(walk_local(fn)) if not isinstance(fn, ast.Lambda) else list(ast.walk(fn.body)))
+        for node in nodes:
+            is_addr = (isinstance(node, ast.Subscript) and isinstance(node.ctx, ast.Load) and isinstance(node.slice, ast.Constant) and node.slice.value in ("emit_address", "rel_address")
+                       and norm_text(node.value).endswith("state")) or (isinstance(node, ast.Name) and isinstance(node.ctx, ast.Load) and node.id in names)
+            if not is_addr:
+                continue
+            # a closure parameter with the same name shadows: free variables of nested functions are the same objects, so keep them
+            n += 1
+            bad = bad_use(node)
+            ck.instance(("address-use", q, norm_text(node), node.lineno, node.col_offset), None, fn=q)
+            if bad:
+                ck.violation(node, f"{norm_text(node)} may still be an unevaluated deferred (a location counter or symbol value that depends on later statements); '{bad[:60]}' is not an operation a deferred supports "
+                                   "(TypeError, or a silently wrong branch) - it has to be forced with wait() first", construct=f"deferred address used without wait in {public_qual(q).split('::')[1]}")
+    if n < 15:
+        ck.unknown(f"only {n} uses of location counters / symbol values found (over 25 confirmed by hand)")
 
 
 # ---------------------------------------------------------------------------------------------------------------
